@@ -109,7 +109,9 @@ def run():
     r = rng("c15")
     for ti, tb in enumerate(tables):
         complete = all(w >= 0 for row in tb for w in row)
-        boolable = complete and all(w <= 1 for row in tb for w in row)
+        # (boolean tables with missing pairs too: the docstring calls them unsupported, but the statement says
+        # "booleans, possibly with missing pairs" and the intended ValueError never fires - the routine handles them)
+        boolable = all(w <= 1 for row in tb for w in row)
         jobs.append((tb, "int", 0))
         jobs.append((tb, "float", 0))
         if ti % 3 == 0:
@@ -169,7 +171,7 @@ def run():
                 % ("2x3 / 3x2" if t == "quick" else "3x3"))
     chk.assumptions = ["shifting every weight of a table by the same base preserves which assignments are optimal; "
                        "TLC sees the table and the reported weights as deltas",
-                       "documented preconditions: one edge type per table; boolean tables are complete"]
+                       "documented precondition: one edge type per table"]
     return chk.finish()
 
 
